@@ -60,7 +60,7 @@ class AnsiSetting:
             raise TypeError('Unsupported type for setting: {}'.format(type(setting)))
         elif type(setting) is not str:
             # A str subclass: an AnsiStr stands for its text; in any case keep a plain str (the checks below index it)
-            setting = str(getattr(setting, 'base_str', setting))
+            setting = str.__str__(getattr(setting, 'base_str', setting))
 
         if not setting:
             raise ValueError('Setting may not be None or empty string')
